@@ -435,7 +435,7 @@ func newAddressScriptHash32FromHash(scriptHash []byte, net *chaincfg.Params) (*A
 // EncodeAddress returns the string encoding of a pay-to-script-hash
 // address.  Part of the Address interface.
 func (a *AddressScriptHash32) EncodeAddress() string {
-	return encodeCashAddress(a.hash[:], a.prefix, AddrTypePayToScriptHash) // TODO TODO
+	return checkEncodeCashAddress(a.hash[:], a.prefix, AddrTypePayToScriptHash)
 }
 
 // ScriptAddress returns the bytes to be included in a txout script to pay
@@ -759,7 +759,7 @@ func checkDecodeCashAddress(input string) (result []byte, prefix string, t Addre
 	if err != nil {
 		return data, prefix, AddrTypePayToPubKeyHash, err
 	}
-	if len(data) != 21 {
+	if len(data) != 21 && len(data) != 33 {
 		return data, prefix, AddrTypePayToPubKeyHash, errors.New("incorrect data length")
 	}
 	switch data[0] {
@@ -767,8 +767,11 @@ func checkDecodeCashAddress(input string) (result []byte, prefix string, t Addre
 		t = AddrTypePayToPubKeyHash
 	case 0x08:
 		t = AddrTypePayToScriptHash
+	case 0x0b:
+		// type bits 1 (P2SH) with size bits 3 (256 bit hash)
+		t = AddrTypePayToScriptHash32
 	}
-	return data[1:21], prefix, t, nil
+	return data[1:], prefix, t, nil
 }
 
 // AddressType represents the type of address and is used
